@@ -397,6 +397,36 @@ class Result:
         return None
 
 
+REQUEST_TIME_LIMIT = 10  # seconds: "bounded time"
+
+
+class RequestTimeout(BaseException):
+    """Raised inside a request that runs longer than REQUEST_TIME_LIMIT."""
+
+
+def _on_alarm(signum, frame):
+    raise RequestTimeout("request exceeded %d s" % REQUEST_TIME_LIMIT)
+
+
+def _arm_alarm():
+    import signal
+
+    if _threading.current_thread() is not _threading.main_thread():
+        return None
+    old = signal.signal(signal.SIGALRM, _on_alarm)
+    signal.alarm(REQUEST_TIME_LIMIT)
+    return old
+
+
+def _disarm_alarm(old):
+    import signal
+
+    if old is None and _threading.current_thread() is not _threading.main_thread():
+        return
+    signal.alarm(0)
+    signal.signal(signal.SIGALRM, old if old is not None else signal.SIG_DFL)
+
+
 def make_server(config, server_class=None):
     server_class = server_class or pygopherd.server.ThreadingTCPServer
     server = server_class(
@@ -418,12 +448,15 @@ def serve(server, data: bytes, tls=False, fail_at=None, fail_exc=None, sock=None
     PM.last = None
     escaped = None
     t0 = _time.perf_counter()
+    armed = _arm_alarm()
     try:
         pygopherd.server.GopherRequestHandler(sock, CLIENT_ADDR, server)
     except BaseException as e:  # noqa
         if isinstance(e, (KeyboardInterrupt, SystemExit)):
             raise
         escaped = e
+    finally:
+        _disarm_alarm(armed)
     wall = _time.perf_counter() - t0
     writes = sock.collect()
     return Result(b"".join(writes), writes, escaped, list(CATCHALL.caught), list(LOG.records), wall, sock.failed, sock.nwrites)
@@ -621,3 +654,7 @@ def request(proto: str, selector, search=None):
         body = srch or b""
         return ("%s %s %d\r\n" % (SERVER_NAME, path, len(body))).encode() + body, False
     raise ValueError(proto)
+
+
+# create the scratch root in the check process itself, before any worker is forked
+scratch_root()
